@@ -5,9 +5,11 @@ package c20
 
 import (
 	"errors"
+	"fmt"
 	"io"
 	"path"
 	"sort"
+	"strings"
 	"sync"
 	"sync/atomic"
 	"time"
@@ -38,6 +40,9 @@ var Deviants = []string{
 	"write-at-offset-noop", "seek-end-wrong", "seek-current-wrong", "seek-start-wrong",
 	"open-append-ignored", "open-excl-ignored", "chmod-file-noop", "chmod-dir-noop",
 	"read-after-seek-wrong", "readdir-nested-missing-entry", "stat-dir-wrong-perm",
+	// errors of the right kind and path that are not the typed error itself, wrong names on handles
+	"open-err-wrapped", "mkdir-err-wrapped", "remove-err-wrapped", "rename-err-wrapped",
+	"filestat-wrong-name", "filestat-wrong-name-nested", "filestat-wrong-kind", "filestat-wrong-perm",
 }
 
 // Fired counts, per deviant, how often its deviation actually changed what a call did or returned.
@@ -76,6 +81,16 @@ func flip(err error, from, to error, d string) error {
 		return &hackpadfs.LinkError{Op: e.Op, Old: e.Old, New: e.New, Err: to}
 	}
 	return to
+}
+
+// wrapped hides a typed error behind another error value (errors.Is / errors.As still reach it)
+func wrapped(err error, d string) error {
+	switch err.(type) {
+	case *hackpadfs.PathError, *hackpadfs.LinkError:
+		fire(d)
+		return fmt.Errorf("deviant: %w", err)
+	}
+	return err
 }
 
 func badPath(err error, d string) error {
@@ -128,6 +143,9 @@ func (f *FS) OpenFile(name string, flag int, perm hackpadfs.FileMode) (hackpadfs
 	if f.is("open-wrong-errkind") {
 		err = flip(err, hackpadfs.ErrNotExist, hackpadfs.ErrExist, f.D)
 	}
+	if f.is("open-err-wrapped") {
+		err = wrapped(err, f.D)
+	}
 	if f.is("open-wrong-errpath") {
 		err = badPath(err, f.D)
 	}
@@ -162,6 +180,9 @@ func (f *FS) Mkdir(name string, perm hackpadfs.FileMode) error {
 	}
 	if f.is("mkdir-wrong-errpath") {
 		err = badPath(err, f.D)
+	}
+	if f.is("mkdir-err-wrapped") {
+		err = wrapped(err, f.D)
 	}
 	return err
 }
@@ -211,6 +232,9 @@ func (f *FS) Remove(name string) error {
 	}
 	if f.is("remove-wrong-errpath") {
 		err = badPath(err, f.D)
+	}
+	if f.is("remove-err-wrapped") {
+		err = wrapped(err, f.D)
 	}
 	return err
 }
@@ -281,6 +305,9 @@ func (f *FS) Rename(oldname, newname string) error {
 	}
 	if f.is("rename-wrong-errpath") {
 		err = badPath(err, f.D)
+	}
+	if f.is("rename-err-wrapped") {
+		err = wrapped(err, f.D)
 	}
 	return err
 }
@@ -547,6 +574,26 @@ func (f *File) Stat() (hackpadfs.FileInfo, error) {
 		fire(f.fs.D)
 		s := in.Size() + 1
 		return info{FileInfo: in, size: &s}, nil
+	}
+	if err == nil {
+		switch {
+		case f.is("filestat-wrong-name"):
+			fire(f.fs.D)
+			n := in.Name() + "x"
+			return info{FileInfo: in, name: &n}, nil
+		case f.is("filestat-wrong-name-nested") && strings.Contains(f.name, "/"):
+			fire(f.fs.D)
+			n := f.name // the whole path the handle was opened with, not its last element
+			return info{FileInfo: in, name: &n}, nil
+		case f.is("filestat-wrong-kind"):
+			fire(f.fs.D)
+			m := in.Mode() ^ hackpadfs.ModeDir
+			return info{FileInfo: in, mode: &m}, nil
+		case f.is("filestat-wrong-perm"):
+			fire(f.fs.D)
+			m := in.Mode() ^ 0o111
+			return info{FileInfo: in, mode: &m}, nil
+		}
 	}
 	return in, err
 }
